@@ -44,13 +44,59 @@ ASSUMPTIONS = [
 TIMEOUT = {"quick": 500, "thorough": 2800}
 REQUIRED = {"scenarios": 16, "schedule_runs": 60, "rounds_decoded": 300, "explicit_swaps_checked": 150, "exchanges_accepted": 60,
             "exchanges_rejected": 30, "advance_calls_checked": 16, "shutdowns_checked": 60, "chains_compared_across_schedules": 150,
-            "cases:unsorted_ladder": 1, "cases:odd_chain_count": 2, "cases:single_chain": 1, "returned_rows_rederived": 2000, "run_for_calls_checked": 8}
+            "cases:unsorted_ladder": 1, "cases:odd_chain_count": 2, "cases:sharp_target": 2, "pairings:calls": 20000, "scenarios:large_ladder": 2, "cases:single_chain": 1, "returned_rows_rederived": 2000, "run_for_calls_checked": 8}
 
 
 def jobs(tier, seed):
     n_jobs = 16 if tier == "quick" else 32
-    return [{"name": f"pt-{j}", "seed": seed, "j": j, "n_scen": 1 if tier == "quick" else 3,
-             "n_sched": 5 if tier == "quick" else 12, "calib_rounds": 60 if tier == "quick" else 250} for j in range(n_jobs)]
+    out = [{"name": f"pt-{j}", "seed": seed, "j": j, "n_scen": 1 if tier == "quick" else 3,
+            "n_sched": 5 if tier == "quick" else 12, "calib_rounds": 60 if tier == "quick" else 250} for j in range(n_jobs)]
+    out.append({"name": "pairings", "seed": seed, "j": 900, "mode": "pairings", "calls": 1500 if tier == "quick" else 12000})
+    out.append({"name": "large-ladder", "seed": seed, "j": 901, "mode": "large", "sizes": [10, 13] if tier == "quick" else [10, 11, 13, 16]})
+    return out
+
+
+def pairing_contract(job, rec):
+    """The pairing routines of the real class, driven on ladders of 1..40 chains (they use only N_chains and the generators):
+    every proposed set of pairs must be a matching - no chain twice, no chain with itself, indices in range, N // 2 pairs."""
+    from inference.mcmc import ParallelTempering
+    from vmon.contracts import attach
+
+    rng = mk_rng(job["seed"], "C08-pairs")
+
+    def post(result, self):
+        pairs = [(int(a), int(b)) for a, b in result]
+        flat = [i for p in pairs for i in p]
+        N = self.N_chains
+        rec.counters["oracle_evaluations"] += 1
+        rec.check(len(flat) == len(set(flat)) and all(a != b for a, b in pairs) and all(0 <= i < N for i in flat) and len(pairs) == N // 2, "pairs-not-a-matching",
+                  lambda: f"{N} chains: the proposed pairs {pairs} are not {N // 2} disjoint pairs of distinct chains", {"chains": N})
+
+    atts = [attach(ParallelTempering, m, post=post) for m in ("tight_pairs", "uniform_pairs")]
+
+    class Ladder:   # the attributes the pairing routines read
+        tight_pairs = ParallelTempering.tight_pairs
+        uniform_pairs = ParallelTempering.uniform_pairs
+
+    for N in range(1, 41):
+        lad = Ladder()
+        lad.N_chains = N
+        lad.rng = np.random.default_rng(int(rng.integers(2**63)))
+        random.seed(int(rng.integers(2**31)))
+        rec.case(digest("pairings", N), nontrivial=N >= 2)
+        shapes = set()
+        for _ in range(job["calls"] if N >= 9 else max(job["calls"] // 10, 50)):
+            for m in ("tight_pairs", "uniform_pairs"):
+                r = guarded(getattr(lad, m))
+                if isinstance(r, Raised):
+                    rec.violation("raised", f"{m}() with {N} chains raised {r!r}", {"chains": N})
+                    break
+                if m == "tight_pairs":
+                    shapes.add(tuple(sorted((int(a), int(b)) for a, b in r)))
+        rec.count("pairings:distinct_tight_matchings", len(shapes))
+    rec.count("pairings:calls", sum(a.calls for a in atts))
+    for a in atts:
+        a.detach()
 
 
 # ------------------------------------------------------------------ scenario construction
@@ -88,8 +134,10 @@ def make_spec(rng, j, k):
             prog.append(("return_chains", 0))
     prog.append(("swap", 0))
     A = rng.normal(size=(d, d))
-    return {"n": n, "d": d, "kinds": kinds, "ladder": ladder, "temps": [float(t) for t in temps], "program": prog,
-            "mu": (rng.normal(size=d) * 0.5).tolist(), "cov": (A @ A.T / d + 0.6 * np.eye(d)).tolist(),
+    # a quarter of the scenarios have a sharply peaked log-density: the exchange exponents then run to 1e3 .. 1e6 (certain or impossible exchanges)
+    sharp = float(10.0 ** rng.uniform(-7, -4)) if (j + k) % 4 == 2 else 1.0
+    return {"n": n, "d": d, "kinds": kinds, "ladder": ladder, "temps": [float(t) for t in temps], "program": prog, "sharp": sharp,
+            "mu": (rng.normal(size=d) * 0.5).tolist(), "cov": ((A @ A.T / d + 0.6 * np.eye(d)) * sharp).tolist(),
             "starts": (rng.normal(size=(n, d)) * 1.5).tolist(), "seeds": [int(v) for v in rng.integers(2**31, size=n + 2)],
             "display": bool(rng.random() < 0.3)}
 
@@ -421,7 +469,28 @@ def same_outcome(a, b):
     return True, ""
 
 
+def large_ladders(job, rec):
+    """Ladders of 10+ chains (where the pairing has several leftover chains to match up): swap rounds on a flat-ish target so that most
+    proposed exchanges are accepted; the per-swap monitor checks matching, exchange rule, positions and re-tempering."""
+    rng = mk_rng(job["seed"], "C08-large")
+    for n in job["sizes"]:
+        spec = make_spec(rng, 0, 0)
+        d = spec["d"]
+        spec.update(n=n, kinds=["gibbs"] * n, ladder="tight", temps=[float(t) for t in np.cumprod([1.0] + list(rng.uniform(1.02, 1.1, size=n - 1)))],
+                    starts=(rng.normal(size=(n, d)) * 1.5).tolist(), seeds=[int(v) for v in rng.integers(2**31, size=n + 2)], display=False,
+                    program=[("take_steps", 1), ("swap", 0)] * 40 + [("return_chains", 0)])
+        ctx = {"scenario": f"large-ladder/{n}", "chains": n, "ladder": "tight"}
+        rec.context = ctx
+        rec.count("scenarios:large_ladder")
+        rec.case(digest("large", n), nontrivial=True)
+        execute(spec, {"name": "unperturbed"}, rec, monitor=True, ctx=ctx)
+
+
 def run_job(job, rec):
+    if job.get("mode") == "pairings":
+        return pairing_contract(job, rec)
+    if job.get("mode") == "large":
+        return large_ladders(job, rec)
     rng = mk_rng(job["seed"], "C08", job["j"])
     sig_all = set()
     for k in range(job["n_scen"]):
@@ -431,6 +500,9 @@ def run_job(job, rec):
                 "temperatures": [round(t, 3) for t in spec["temps"]], "program": spec["program"], "display": spec["display"]}
         rec.context = sctx
         rec.count("scenarios")
+        if spec["sharp"] != 1.0:
+            rec.count("cases:sharp_target")
+            sctx["target_scale"] = spec["sharp"]
         if spec["ladder"] == "unsorted":
             rec.count("cases:unsorted_ladder")
         if n % 2 == 1 and n > 1:
